@@ -130,7 +130,8 @@ Fixpoint bisection (fuel : nat) (xs : list T) (x : T) (jl jr : Z) : res Z :=
 Definition locate (o : itab) (x : T) : res nat :=
   let N := iN o in
   let xs := ixs o in
-  if nltb Ops x (idom0 o) || ngtb Ops x (idom1 o) then
+  if nisnan Ops x then Exit     (* if(std::isnan(x)) { ...; std::exit(EXIT_FAILURE); } *)
+  else if nltb Ops x (idom0 o) || ngtb Ops x (idom1 o) then
     let tol_left := (ndec Ops 1 100 * (xat xs 1 - xat xs 0))%num in
     let tol_right := (ndec Ops 1 100 * (xat xs (N - 1) - xat xs (N - 2)))%num in
     if nltb Ops (nabs Ops (x - idom0 o)%num) tol_left then Ok 0%nat
